@@ -474,6 +474,9 @@ def invalid_probes(seed, state, nr=3, nc=3):
         probe("get_rows_list h0 1 %d" % i)
         probe("get_ranged_rows_list h0 1 %d" % i)
         probe("add_col h0 1 %d 1 %s 0 inf -" % (i, q()))
+        pn = "pc_%d_%d" % (seed % 1000, abs(i) % 100000)
+        probe("add_col h0 1 %d 1 %s 0 inf %s" % (i, q(), pn))
+        probe("get_column_index h0 %s" % pn)          # a rejected add must not leave the name behind
         probe("add_cols h0 2 0 1 0 inf -  1 %d 1 2 0 inf -" % i)
         probe("binv_row h0 %d" % i)
         probe("tableau_row h0 %d" % i)
@@ -497,6 +500,9 @@ def invalid_probes(seed, state, nr=3, nc=3):
         probe("get_bounds_list h0 1 %d" % j)
         probe("get_columns_list h0 1 %d" % j)
         probe("add_row h0 1 %d 1 %s L -" % (j, q()))
+        pr = "pr_%d_%d" % (seed % 1000, abs(j) % 100000)
+        probe("add_row h0 1 %d 1 %s L %s" % (j, q(), pr))
+        probe("get_row_index h0 %s" % pr)
         probe("add_ranged_row h0 1 %d 1 %s R 1 -" % (j, q()))
         probe("add_rows h0 2 0 1 L -  1 %d 1 2 G -" % j)
         probe("add_ranged_rows h0 2 0 1 L 0 -  1 %d 1 2 R 1 -" % j)
@@ -568,6 +574,14 @@ def invalid_probes(seed, state, nr=3, nc=3):
         probe("write_basis h0 b1 /dev/null")
         probe("write_basis h0 b2 /dev/null")
         probe("basis_optimalstatus h0 b1") if False else None
+    # after all the rejected calls the problem must still accept ordinary edits (with and without names)
+    if state != "empty":
+        g.emit("new_col h0 1 0 inf -")
+        g.emit("new_col h0 1 0 inf pc_%d_%d" % (seed % 1000, m))
+        g.emit("add_col h0 0 2 0 inf -")
+        g.emit("new_row h0 1 L -")
+        g.emit("new_row h0 1 G pr_%d_%d" % (seed % 1000, n))
+        obs()
     probe("read_and_load_basis h0 /nonexistent/dir/x.bas")
     probe("read_basis h0 b5 /nonexistent/dir/x.bas")
     g.emit("free h0")
